@@ -820,3 +820,125 @@ Proof.
       * destruct (filter_conf_changes _ rest _ (i + 1)) as [[ra ea] oa] eqn:E. okinv H.
         apply IH in E. eapply keeps_trans; [|exact E]. reflexivity.
 Qed.
+
+(* ------------------------------------------------------------------ *)
+(* Part 3: step, split into the term prologue and the body *)
+
+Definition lease_drop (r : raft) (m : msg) : bool :=
+  ((m_type m =? MsgRequestVote) || (m_type m =? MsgRequestPreVote))
+  && negb (list_eqb (m_context m) CAMPAIGN_TRANSFER)
+  && (r_check_quorum r && negb (r_leader_id r =? INVALID_ID)
+      && (r_election_elapsed r <? r_election_timeout r)).
+
+(* a higher-term message of this kind is exempt from term adoption *)
+Definition exempt (m : msg) : bool :=
+  (m_type m =? MsgRequestPreVote)
+  || ((m_type m =? MsgRequestPreVoteResponse) && negb (m_reject m)).
+
+Definition from_leader (m : msg) : bool :=
+  (m_type m =? MsgAppend) || (m_type m =? MsgHeartbeat) || (m_type m =? MsgSnapshot).
+
+(* the answer to a lower-term message *)
+Definition low_term_reply (r : raft) (m : msg) : Res raft :=
+  if (r_check_quorum r || r_pre_vote r) && ((m_type m =? MsgHeartbeat) || (m_type m =? MsgAppend))
+  then send r (new_message (m_from m) MsgAppendResponse None)
+  else if m_type m =? MsgRequestPreVote then
+    send r ((new_message (m_from m) MsgRequestPreVoteResponse None)
+              <| m_term := r_term r |> <| m_reject := true |>)
+  else Ok r.
+
+Definition step_pre (r : raft) (m : msg) : Res (raft * N + raft) :=
+  if m_term m =? 0 then Ok (inr r)
+  else if r_term r <? m_term m then
+    if lease_drop r m then Ok (inl (r, E_OK))
+    else if exempt m then Ok (inr r)
+    else if from_leader m then r' <- become_follower r (m_term m) (m_from m) ;; Ok (inr r')
+    else r' <- become_follower r (m_term m) INVALID_ID ;; Ok (inr r')
+  else if m_term m <? r_term r then r' <- low_term_reply r m ;; Ok (inl (r', E_OK))
+  else Ok (inr r).
+
+Definition step_body (r : raft) (m : msg) : Res (raft * N) :=
+  let t := m_type m in
+  if t =? MsgHup then r' <- hup r false ;; Ok (r', E_OK)
+  else if (t =? MsgRequestVote) || (t =? MsgRequestPreVote) then
+    let can_vote := (r_vote r =? m_from m)
+                    || ((r_vote r =? INVALID_ID) && (r_leader_id r =? INVALID_ID))
+                    || ((t =? MsgRequestPreVote) && (r_term r <? m_term m)) in
+    utd <- is_up_to_date (r_log r) (m_index m) (m_log_term m) ;;
+    rt <- vote_resp_msg_type t ;;
+    if can_vote && utd
+       && ((last_index (r_log r) <? m_index m) || (r_priority r <=? get_priority m)%Z)
+    then
+      r1 <- send r ((new_message (m_from m) rt None) <| m_reject := false |>
+                      <| m_term := m_term m |>) ;;
+      if t =? MsgRequestVote
+      then Ok (r1 <| r_election_elapsed := 0 |> <| r_vote := m_from m |>, E_OK)
+      else Ok (r1, E_OK)
+    else
+      ci <- commit_info (r_log r) ;;
+      r1 <- send r ((new_message (m_from m) rt None) <| m_reject := true |>
+                      <| m_term := r_term r |> <| m_commit := fst ci |>
+                      <| m_commit_term := snd ci |>) ;;
+      r2 <- maybe_commit_by_vote r1 m ;; Ok (r2, E_OK)
+  else
+    match r_state r with
+    | PreCandidate | Candidate => step_candidate r m
+    | Follower => step_follower r m
+    | Leader => step_leader r m
+    end.
+
+Lemma step_eq r m :
+  step r m = (pre <- step_pre r m ;;
+              match pre with inl ret => Ok ret | inr r1 => step_body r1 m end).
+Proof.
+  unfold step, step_pre, step_body, lease_drop, exempt, from_leader, low_term_reply.
+  destruct (m_term m =? 0); [reflexivity|].
+  destruct (r_term r <? m_term m).
+  - destruct ((m_type m =? MsgRequestVote) || (m_type m =? MsgRequestPreVote));
+      destruct (list_eqb (m_context m) CAMPAIGN_TRANSFER); cbn [negb andb];
+      try destruct (r_check_quorum r && negb (r_leader_id r =? INVALID_ID) &&
+                    (r_election_elapsed r <? r_election_timeout r)); cbn [negb andb bind];
+      try reflexivity;
+      destruct ((m_type m =? MsgRequestPreVote) ||
+                (m_type m =? MsgRequestPreVoteResponse) && negb (m_reject m)); try reflexivity;
+      destruct ((m_type m =? MsgAppend) || (m_type m =? MsgHeartbeat) || (m_type m =? MsgSnapshot));
+      cbn [bind]; destruct (become_follower _ _ _); reflexivity.
+  - destruct (m_term m <? r_term r); [|reflexivity].
+    destruct ((r_check_quorum r || r_pre_vote r) &&
+              ((m_type m =? MsgHeartbeat) || (m_type m =? MsgAppend))).
+    + cbn [bind]. destruct (send _ _); reflexivity.
+    + destruct (m_type m =? MsgRequestPreVote); [|reflexivity].
+      cbn [bind]. destruct (send _ _); reflexivity.
+Qed.
+
+(* the prologue, by cases *)
+Lemma step_pre_cases r m x : step_pre r m = Ok x ->
+  match x with
+  | inl (r1, c) =>
+      c = E_OK /\ m_term m <> 0 /\
+      ((r_term r < m_term m /\ lease_drop r m = true /\ r1 = r) \/
+       (m_term m < r_term r /\ low_term_reply r m = Ok r1))
+  | inr r1 =>
+      (r1 = r /\ (m_term m = 0 \/ m_term m = r_term r \/
+                  (r_term r < m_term m /\ lease_drop r m = false /\ exempt m = true))) \/
+      (r_term r < m_term m /\ lease_drop r m = false /\ exempt m = false /\
+       become_follower r (m_term m) (if from_leader m then m_from m else INVALID_ID) = Ok r1)
+  end.
+Proof.
+  unfold step_pre. intros H.
+  destruct (m_term m =? 0) eqn:Ez; [okinv H; left; split; [reflexivity|left; lia]|].
+  destruct (r_term r <? m_term m) eqn:Elt.
+  - destruct (lease_drop r m) eqn:El; [okinv H; repeat split; try lia; left; repeat split; lia|].
+    destruct (exempt m) eqn:Ee; [okinv H; left; split; [reflexivity|right; right; repeat split; lia]|].
+    destruct (from_leader m); ib H y Hy; okinv H; right; repeat split; try lia; exact Hy.
+  - destruct (m_term m <? r_term r) eqn:Egt.
+    + ib H y Hy. okinv H. repeat split; try lia. right. split; [lia|exact Hy].
+    + okinv H. left. split; [reflexivity|right; left; lia].
+Qed.
+
+Lemma low_term_reply_msgs_only r m r' : low_term_reply r m = Ok r' -> msgs_only r r'.
+Proof.
+  unfold low_term_reply. intros H.
+  dtop H; [apply send_msgs_only in H; exact H|].
+  dtop H; [apply send_msgs_only in H; exact H|]. okinv H. apply msgs_only_refl.
+Qed.
